@@ -103,7 +103,7 @@ def parse_dump(stderr):
     return out
 
 
-def run_child_batch(reqs, workdir, tag, timeout=300, env=None, race=False):
+def run_child_batch(reqs, workdir, tag, timeout=300, env=None, race=False, subcmd="child", sparse=False):
     """Runs requests sequentially in child processes; restarts after a deadlock / leak.
     Returns a list of results aligned with reqs.  A deadlocked request yields
     {"id":..., "deadlock": True, "dump": [...]}."""
@@ -119,7 +119,7 @@ def run_child_batch(reqs, workdir, tag, timeout=300, env=None, race=False):
         e.update(env)
     while start < len(reqs):
         try:
-            p = subprocess.run([exe, "child", path, str(start)], capture_output=True, text=True,
+            p = subprocess.run([exe, subcmd, path, str(start)], capture_output=True, text=True,
                                timeout=timeout, env=e)
         except subprocess.TimeoutExpired as ex:
             # a hang that the runtime did not report: machinery problem, never a verdict
@@ -162,7 +162,7 @@ def run_child_batch(reqs, workdir, tag, timeout=300, env=None, race=False):
     return results
 
 
-def run_children(reqs, jobs=None, timeout=300, env=None, race=False):
+def run_children(reqs, jobs=None, timeout=300, env=None, race=False, subcmd="child"):
     """Runs requests in parallel child processes (partitioned round-robin)."""
     if not reqs:
         return []
@@ -174,7 +174,7 @@ def run_children(reqs, jobs=None, timeout=300, env=None, race=False):
             parts[i % jobs].append((i, r))
         results = [None] * len(reqs)
         with cf.ThreadPoolExecutor(max_workers=jobs) as ex:
-            futs = {ex.submit(run_child_batch, [r for _, r in part], wd, str(k), timeout, env, race): part
+            futs = {ex.submit(run_child_batch, [r for _, r in part], wd, str(k), timeout, env, race, subcmd): part
                     for k, part in enumerate(parts) if part}
             for fut in cf.as_completed(futs):
                 part = futs[fut]
